@@ -131,7 +131,11 @@ def run_at_prompt(case):
 
 
 def prompt_ok(line):
-    return all(ord(ch) >= 32 for ch in line) and "!!" not in line and not line.rstrip().endswith("\\")
+    """lines that can be typed at the prompt as one line: no control characters, no !!, no continuation backslash (an odd
+    number of backslashes at the end; an escaped backslash at the end is fine)"""
+    t = line.rstrip(" ")
+    nbs = len(t) - len(t.rstrip("\\"))
+    return all(ord(ch) >= 32 for ch in line) and "!!" not in line and nbs % 2 == 0
 
 
 # ------------------------------------------------------------------ main
@@ -278,7 +282,13 @@ def runner(rep, tier, seed, replay):
     # ---- prompt
     pool = [i for i in chosen if prompt_ok(cases[i]["text"])]
     nprompt = min(len(pool), 100 if tier == "quick" else 1500)
-    psel = rnd.sample(pool, nprompt) if pool else []
+    # the end of the line is where the prompt's own pre-processing (completeness test, continuation lines) matters: lines that
+    # end in a backslash or in an escaped character are typed first
+    edge = [i for i in pool if cases[i]["text"].rstrip(" ").endswith("\\") or re.search(r"\\.$", cases[i]["text"])]
+    rnd.shuffle(edge)
+    edge = edge[:nprompt // 2]
+    rest_pool = [i for i in pool if i not in set(edge)]
+    psel = edge + (rnd.sample(rest_pool, min(len(rest_pool), nprompt - len(edge))) if rest_pool else [])
     pos = {i: n for n, i in enumerate(chosen)}
 
     def one(i):
